@@ -7,7 +7,8 @@
 
     Checked in this file: the FIPS 180 vectors "", "abc", the 448-bit message, and 'a' * 1000.
     Proved: [sha256_length] (32 bytes) and [sha256_wf] (all bytes < 256), for every input. *)
-From Coq Require Import List Bool Arith NArith Lia String Ascii.
+From Coq Require Import List Bool Arith NArith Lia Ascii.
+From Coq Require String.
 From Ont Require Import Lib.Bytes.
 Import ListNotations.
 Local Open Scope N_scope.
@@ -91,7 +92,7 @@ Fixpoint words_of_bytes (b : bytes) : list N :=
 (** [process_aux hs buf n ws]: [buf] holds the words of the current block in reverse, [n] more
     words (after the next one) complete it. Trailing words that do not fill a block are ignored
     (the padded message never has any, see [pad_length]). *)
-Fixpoint process_aux (hs : hstate) (buf : list N) (n : nat) (ws : list N) : hstate :=
+Fixpoint process_aux (hs : hstate) (buf : list N) (n : nat) (ws : list N) {struct ws} : hstate :=
   match ws with
   | [] => hs
   | w :: r =>
@@ -129,7 +130,7 @@ Proof.
   - replace ((119 - r) mod 64)%nat with (55 - r)%nat.
     + replace (length msg + S (55 - r + 8))%nat with ((q + 1) * 64)%nat by lia.
       apply Nat.mod_mul. discriminate.
-    + symmetry. apply (Nat.mod_unique _ _ 1%nat); lia.
+    + apply (Nat.mod_unique _ _ 1%nat); lia.
   - replace ((119 - r) mod 64)%nat with (119 - r)%nat.
     + replace (length msg + S (119 - r + 8))%nat with ((q + 2) * 64)%nat by lia.
       apply Nat.mod_mul. discriminate.
@@ -196,17 +197,21 @@ Qed.
 
 (** * Test vectors (FIPS 180) *)
 
-Definition bytes_of_string (s : string) : bytes := map N_of_ascii (list_ascii_of_string s).
+Definition bytes_of_string (s : String.string) : bytes :=
+  map N_of_ascii (String.list_ascii_of_string s).
 
 Definition hex_digit (c : ascii) : N :=
   let n := N_of_ascii c in
   if n <? 58 then n - 48 else if n <? 71 then n - 55 else n - 87.
 
-Fixpoint bytes_of_hex (s : string) : bytes :=
+Fixpoint bytes_of_hex (s : String.string) : bytes :=
   match s with
-  | String c1 (String c2 r) => (16 * hex_digit c1 + hex_digit c2) :: bytes_of_hex r
+  | String.String c1 (String.String c2 r) => (16 * hex_digit c1 + hex_digit c2) :: bytes_of_hex r
   | _ => []
   end.
+
+(* [String] is imported only here, at the end (it shadows [length]), for string literals. *)
+Import String.
 
 Example sha256_empty :
   sha256 [] = bytes_of_hex "e3b0c44298fc1c149afbf4c8996fb92427ae41e4649b934ca495991b7852b855".
